@@ -2,7 +2,7 @@
    (handleMessage of cs104_slave.c, transcribed); the model is executed against the real server on
    every run.  u_* are the six-octet U-format APDUs. *)
 From Coq Require Import ZArith List Bool.
-From L60870 Require Import Apci.Frame Cs104.Server Cs104.ServerProofs.
+From L60870 Require Import Apci.Frame Cs104.Server Cs104.ServerProofs Cs104.TraceProofs.
 Import ListNotations.
 Local Open Scope Z_scope.
 
@@ -51,3 +51,17 @@ Theorem C07_s_in_stopped_closes : forall g now s c f,
   Z.land (nth 2 f 0) 19 =? 19 = false -> Z.land (nth 2 f 0) 131 =? 131 = false -> nth 2 f 0 =? 1 = true ->
   st c = STOPPED -> res_ok (handle_message g now s c f) = false.
 Proof. exact s_in_stopped_closes. Qed.
+
+(* ---- history level --------------------------------------------------------------------------------------------
+   `mon` (Cs104/TraceProofs.v) reads the observation stream: ACTIVATED sets the started flag; DEACTIVATED, the STOPDT act
+   marker, OPENED and CLOSED clear it; an I-format APDU written while the flag is clear makes it fail.  For EVERY sequence
+   of stimuli (connection attempts, ticks, received octets in any segmentation, enqueued events, peer closes, write
+   failures, any clock values) from the initial state the monitor never fails and ends in the connection's state *)
+Theorem C07_history : forall xs g,
+  mon false (snd (srun g server_init xs)) = Some (flag_of (fst (srun g server_init xs))).
+Proof. intros xs g. exact (no_iframe_outside_started xs g server_init). Qed.
+
+(* hence: wherever an I-format APDU occurs in the stream, data transfer had been started and not stopped before it *)
+Theorem C07_iframe_only_when_started : forall xs g pre c b post,
+  snd (srun g server_init xs) = pre ++ OTx c b :: post -> is_i b = true -> mon false pre = Some true.
+Proof. exact iframe_only_when_started. Qed.
